@@ -38,6 +38,7 @@ struct Args {
     cap: Option<u64>,
     evidence: bool,
     verbose: bool,
+    only: Option<String>,
     rest: Vec<String>,
 }
 
@@ -52,6 +53,7 @@ fn parse_args(args: &[String]) -> Args {
         cap: None,
         evidence: true,
         verbose: false,
+        only: None,
         rest: vec![],
     };
     let mut i = 0;
@@ -74,6 +76,11 @@ fn parse_args(args: &[String]) -> Args {
                 a.cap = args[i].parse().ok();
             }
             "--no-evidence" => a.evidence = false,
+            "--only" => {
+                i += 1;
+                a.only = Some(args[i].clone());
+                a.evidence = false;
+            }
             "-v" => a.verbose = true,
             s => a.rest.push(s.to_string()),
         }
@@ -97,6 +104,7 @@ fn batch<C: Check>(c: C, a: &Args) -> i32 {
             verif_dir: verif_dir(),
             runs_override: a.runs,
             write_evidence: a.evidence,
+            only: a.only.clone(),
         },
     )
 }
@@ -123,6 +131,9 @@ macro_rules! dispatch {
     ($prop:expr, $f:ident, $($arg:expr),*) => {
         match $prop {
             "C04" => $f(p_e1::C04, $($arg),*),
+            "C06" => $f(p_e1::C06, $($arg),*),
+            "C07" => $f(p_e1::C07, $($arg),*),
+            "C10" => $f(p_e1::C10, $($arg),*),
             other => {
                 eprintln!("unknown or not-applicable property {other}");
                 2
